@@ -90,3 +90,63 @@ impl<G: AffineRepr> R1CSProof<G> {
         }
     }
 }
+
+/// Verification hooks (feature `verif-hooks`, off by default): the proof's fields by name, so
+/// that an external harness does not depend on the order in which the derived serialization
+/// lays them out.
+#[cfg(feature = "verif-hooks")]
+#[allow(non_snake_case, missing_docs, clippy::type_complexity)]
+impl<G: AffineRepr> R1CSProof<G> {
+    /// Points `[A_I1, A_O1, S1, A_I2, A_O2, S2, T_1, T_3, T_4, T_5, T_6]`, scalars
+    /// `[t_x, t_x_blinding, e_blinding]`, `L_vec`, `R_vec`, `a`, `b`.
+    pub fn verif_fields(
+        &self,
+    ) -> (
+        [G; 11],
+        [G::ScalarField; 3],
+        Vec<G>,
+        Vec<G>,
+        G::ScalarField,
+        G::ScalarField,
+    ) {
+        (
+            [
+                self.A_I1, self.A_O1, self.S1, self.A_I2, self.A_O2, self.S2, self.T_1, self.T_3,
+                self.T_4, self.T_5, self.T_6,
+            ],
+            [self.t_x, self.t_x_blinding, self.e_blinding],
+            self.ipp_proof.L_vec.clone(),
+            self.ipp_proof.R_vec.clone(),
+            self.ipp_proof.a,
+            self.ipp_proof.b,
+        )
+    }
+
+    /// Inverse of [`R1CSProof::verif_fields`].
+    pub fn verif_from_fields(
+        pts: [G; 11],
+        sc: [G::ScalarField; 3],
+        L_vec: Vec<G>,
+        R_vec: Vec<G>,
+        a: G::ScalarField,
+        b: G::ScalarField,
+    ) -> Self {
+        R1CSProof {
+            A_I1: pts[0],
+            A_O1: pts[1],
+            S1: pts[2],
+            A_I2: pts[3],
+            A_O2: pts[4],
+            S2: pts[5],
+            T_1: pts[6],
+            T_3: pts[7],
+            T_4: pts[8],
+            T_5: pts[9],
+            T_6: pts[10],
+            t_x: sc[0],
+            t_x_blinding: sc[1],
+            e_blinding: sc[2],
+            ipp_proof: InnerProductProof { L_vec, R_vec, a, b },
+        }
+    }
+}
